@@ -10,7 +10,11 @@ Python (shape, broadcast-only, idempotence, rejection rules; acceptance rules of
 independent of the model.
 
 Wire format of a Python value ("PyVal"): None -> null, bool -> true/false, list -> array,
-number -> {"q": "p/q"} (+ "f": 1 when an integral value is to be a float), str -> {"s": "..."}.
+number -> {"q": "p/q"} (+ "f": 1 when an integral value is to be a float), str -> {"s": "..."},
+any other object -> {"x": kind, "r": text} (table `_EXOTIC`: bytes, bytearray, tuple, dict, numpy arrays,
+Decimal, complex, numpy scalars, Fraction, inf / nan).  Towards the model (`to_model`) an exotic value that
+is a `numbers.Real` becomes a number (its exact value; inf / nan: a placeholder, the model never computes
+with entries), every other one becomes `PyVal.other`.
 """
 from __future__ import annotations
 
@@ -38,7 +42,8 @@ THEOREMS = [
         "rejects_only_errors", "rejects_none_str", "rejects_empty", "rejects_wrong_length_flat",
         "rejects_wrong_length_nested", "rejects_mixed_nesting", "rejects_nested_in_flat", "rejects_too_deep",
         "rejects_non_numeric_flat", "rejects_non_numeric_nested",
-        "checkThresholds_sound", "optFlat_sound", "optNested_sound", "metric_param_keys_valid", "checkParameters_sound", "support_tasks_wellformed",
+        "checkThresholds_sound", "checkNestedThresholds_sound", "non_numbers_not_real", "check_rejects_non_numeric", "rejects_other",
+        "optFlat_sound", "optNested_sound", "metric_param_keys_valid", "checkParameters_sound", "support_tasks_wellformed",
         "config_accept_sound", "config_ignores_unread_key", "sensing_accept_sound",
         "critical_accept_sound", "passfail_accept_sound",
     ]
@@ -48,9 +53,18 @@ RULE = (
     "list lengths <= 3, leaves in {number, bool, str, None} x n in 0..4 x nest in {F,T}, and (F2) every all-numeric "
     "tree of nesting <= 2 with list lengths <= 3 (157 shapes, distinct leaf values) together with every single-leaf "
     "corruption by {bool, str, None, [x], []} x n in 1..4 x nest in {F,T}, and (F3) for n in 1..4 every all-numeric flat "
-    "list / list of <= 3 rows with lengths in {0,1,n-1,n,n+1} (+ single-leaf corruptions for <= 2 rows) x nest. Configurations: for each of the 8 perception "
+    "list / list of <= 3 rows with lengths in {0,1,n-1,n,n+1} (+ single-leaf corruptions for <= 2 rows) x nest, and (F4) every "
+    "all-numeric tree of F2 with every single leaf and every single row replaced by an entry that only LOOKS numeric, from four "
+    "classes: strings float() would parse ('0.5', '2', '1e-3', 'nan', 'inf', ' 3 ', '1_0', a non-ASCII digit ...), objects that are no "
+    "numbers (bytes, bytearray, tuple, dict, numpy arrays), numeric objects that are no numbers.Real (Decimal, complex, numpy.bool_, "
+    "0-dimensional arrays), and numbers.Real that are no plain finite int/float (Fraction, numpy float64/float32/int64, inf, -inf, nan) "
+    "- thorough: every value x n in 1..4, quick: two values per class in rotation x the n for which the uncorrupted tree is well-formed - "
+    "plus seeded trees with 2-3 such entries. The direct entry points check_thresholds / check_nested_thresholds run on the same "
+    "specifications (flat-mode ones / nested-mode ones; F1 only up to 4 (quick) / 5 (thorough) nodes). Configurations: for each of the 8 perception "
     "tasks (x range kind x label prefix) and the sensing task, a valid evaluation_config_dict with every single key "
-    "deleted, every pool key added, every key corrupted by every pool value, every frame-id variant, plus seeded "
+    "deleted, every pool key added, every key corrupted by every pool value, every key that holds a threshold specification given "
+    "well-shaped lists with one look-numeric entry (full row, singleton, second row, singleton row; quick: 8 per key in rotation), "
+    "every combination of the four range bounds absent / positive / given-but-falsy (0, 0.0), every frame-id variant, plus seeded "
     "random double/triple mutations; CriticalObjectFilterConfig / PerceptionPassFailConfig keyword lists mutated the "
     "same way. A case is trivial only if it is an unchanged valid base configuration; distinct = distinct canonical JSON."
 )
@@ -58,13 +72,25 @@ TRUSTED = [
     "translator harness/gen_tables.py (reads _support_tasks, inspect.signature of the metrics config classes, the label enums)",
     "model facts not regenerated: EvaluationTask.is_3d membership, the keys of f_params / m_params written in "
     "_extract_params, LabelConverter's label_prefix dispatch (all exercised by the correspondence run)",
-    "values outside PyVal (dict, tuple, numpy scalars, NaN) are not threshold specifications of the model",
+    "objects other than int/float/bool/str/None/list are one constructor `PyVal.other` of the model (not Real, not a list, no len()); "
+    "those with a length or iteration (bytes, bytearray, tuple, dict, numpy arrays of dimension >= 1) are used in entry positions only "
+    "(items of a list, rows), where the code asks nothing but isinstance(., Real) / isinstance(., list) of them; as a whole "
+    "specification they are outside the model",
+    "numbers.Real objects other than int/float (Fraction, numpy scalars) reach the model as their exact value, inf / -inf / nan as three "
+    "placeholder numbers (the model never computes with entries); the oracle compares results with the inputs including their type",
 ]
 ASSUMPTIONS = [
-    "threshold specifications are built from int, float, bool, str, None and list (bool is a numbers.Real, as in the code)",
-    "a number in the oracle is isinstance(x, (int, float)) (bool included, Python's sense) when judging an accepted result; "
-    "a well-formed specification must be accepted only if it holds no bool (the property is silent on bool); any exception "
+    "threshold specifications are built from int, float, bool, str, None, list and the objects of the table _EXOTIC "
+    "(bool is a numbers.Real, as in the code)",
+    "the oracle classifies an entry by its TYPE: a number = a plain finite int / float; not a number (must be rejected) = str whatever "
+    "its content, bytes, bytearray, None, tuple, dict, numpy arrays of dimension >= 1, a list where a number is expected; the text "
+    "is silent on bool, Fraction, numpy scalars, inf / nan, Decimal, complex, 0-dimensional arrays: a specification holding one of "
+    "these may be accepted or rejected (the unchanged code accepts exactly the numbers.Real ones - that is compared in the "
+    "correspondence), but when accepted it must be normalised like a number (kept verbatim, broadcast only); any exception "
     "counts as rejection, the error kind is compared only in the correspondence",
+    "check_thresholds / check_nested_thresholds called directly: an accepted value that is a list must be a normal form (exactly n "
+    "numbers / rows of exactly n numbers) and is returned unchanged; a normal form of plain numbers must be accepted; values that "
+    "are not lists are outside their documented domain and only compared with the model",
     "B3: a missing or falsy (None, 0, 0.0, False, '', []) metric threshold yields an empty list and is not a rejection; "
     "mandatory parameters are evaluation_task, label_prefix (perception), one complete range kind for 3-D tasks, "
     "min_point_numbers for detection",
@@ -77,6 +103,43 @@ F8_ID = "F8-unknown-metric-param"
 CORPUS_DIR = Path(__file__).resolve().parent.parent / "corpus" / "c15"
 
 # --------------------------------------------------------------------------- PyVal wire format
+
+
+def _np():
+    import numpy as np
+
+    return np
+
+
+def _floats(r):
+    return [float(t) for t in r.split(",") if t]
+
+
+# kind -> (constructor from the text, class, is a numbers.Real, usable at the top level of a specification)
+# class: "real" = a numbers.Real that is not a plain finite int / float; "silent" = a numeric object that is
+# not a numbers.Real (the property text does not say whether it is a number); "non" = not a number.
+_EXOTIC = {
+    "bytes": (lambda r: r.encode(), "non", False, False),
+    "bytearray": (lambda r: bytearray(r.encode()), "non", False, False),
+    "tuple": (lambda r: tuple(_floats(r)), "non", False, False),
+    "dict": (lambda r: {t: 1.0 for t in r.split(",") if t}, "non", False, False),
+    "np.array1": (lambda r: _np().array(_floats(r)), "non", False, False),
+    "np.array2": (lambda r: _np().array([_floats(r)]), "non", False, False),
+    "np.array0": (lambda r: _np().array(float(r)), "silent", False, True),
+    "np.bool_": (lambda r: _np().bool_(r == "True"), "silent", False, True),
+    "Decimal": (lambda r: __import__("decimal").Decimal(r), "silent", False, True),
+    "complex": (lambda r: complex(r), "silent", False, True),
+    "Fraction": (lambda r: Fraction(r), "real", True, True),
+    "np.float64": (lambda r: _np().float64(r), "real", True, True),
+    "np.float32": (lambda r: _np().float32(r), "real", True, True),
+    "np.int64": (lambda r: _np().int64(r), "real", True, True),
+    "float": (lambda r: float(r), "real", True, True),  # inf, -inf, nan only
+}
+_PLACEHOLDER = {"inf": 10 ** 30, "-inf": -(10 ** 30), "nan": 10 ** 30 + 1}
+
+
+def X(kind, r):
+    return {"x": kind, "r": r}
 
 
 def to_py(w):
@@ -92,30 +155,113 @@ def to_py(w):
             return float(f)
         if "s" in w:
             return w["s"]
+        if "x" in w:
+            return _EXOTIC[w["x"]][0](w["r"])
+        if "other" in w:
+            return _Unknown(w["other"])
     raise ValueError(f"bad wire value {w!r}")
+
+
+class _Unknown:
+    """an object of a kind the wire format does not know (never a number)"""
+
+    def __init__(self, text):
+        self.text = text
+
+    def __repr__(self):
+        return f"<{self.text}>"
+
+
+def _enc_exotic(x):
+    """wire form of a supported non-PyVal object, or None"""
+    import decimal
+
+    np = _np()
+    if isinstance(x, bool):
+        return None
+    if isinstance(x, float) and not isinstance(x, np.floating) and (math.isnan(x) or math.isinf(x)):
+        return X("float", "nan" if math.isnan(x) else ("inf" if x > 0 else "-inf"))
+    if isinstance(x, np.float64):
+        return X("np.float64", repr(float(x)))
+    if isinstance(x, np.float32):
+        return X("np.float32", repr(float(x)))
+    if isinstance(x, np.int64):
+        return X("np.int64", str(int(x)))
+    if isinstance(x, np.bool_):
+        return X("np.bool_", str(bool(x)))
+    if isinstance(x, np.ndarray):
+        if x.ndim == 0:
+            return X("np.array0", repr(float(x)))
+        if x.ndim == 1:
+            return X("np.array1", ",".join(repr(float(t)) for t in x))
+        if x.ndim == 2 and x.shape[0] == 1:
+            return X("np.array2", ",".join(repr(float(t)) for t in x[0]))
+        return None
+    if isinstance(x, Fraction):
+        return X("Fraction", str(x))
+    if isinstance(x, decimal.Decimal):
+        return X("Decimal", str(x))
+    if isinstance(x, complex):
+        return X("complex", repr(x))
+    if isinstance(x, bytes):
+        return X("bytes", x.decode())
+    if isinstance(x, bytearray):
+        return X("bytearray", x.decode())
+    if isinstance(x, tuple) and all(type(t) is float for t in x):
+        return X("tuple", ",".join(repr(t) for t in x))
+    if isinstance(x, dict) and all(isinstance(t, str) for t in x):
+        return X("dict", ",".join(x))
+    return None
 
 
 def from_py(x):
     if x is None or isinstance(x, bool):
         return x
-    if isinstance(x, (int, float)):
-        if isinstance(x, float) and (math.isnan(x) or math.isinf(x)):
-            return {"other": repr(x)}
+    if type(x) in (int, float) and not (isinstance(x, float) and (math.isnan(x) or math.isinf(x))):
         return {"q": core.q(x)}
     if isinstance(x, str):
         return {"s": x}
     if isinstance(x, list):
         return [from_py(y) for y in x]
+    e = _enc_exotic(x)
+    if e is not None:
+        return e
+    if isinstance(x, (int, float)) and not (isinstance(x, float) and (math.isnan(x) or math.isinf(x))):
+        return {"q": core.q(x)}
     return {"other": type(x).__name__ + ":" + repr(x)[:60]}
 
 
 def strip(w):
-    """wire value without the float flag (what the model sees / canonical form for equality)"""
+    """wire value without the float flag (canonical form for equality; exotic values keep their kind)"""
     if isinstance(w, list):
         return [strip(x) for x in w]
     if isinstance(w, dict) and "q" in w:
         return {"q": w["q"]}
     return w
+
+
+def to_model(w):
+    """wire value in the model's language: exotic Reals are numbers, every other exotic value is `other`"""
+    if isinstance(w, list):
+        return [to_model(x) for x in w]
+    if isinstance(w, dict):
+        if "q" in w:
+            return {"q": w["q"]}
+        if "x" in w and "r" in w:
+            if _EXOTIC[w["x"]][2]:
+                if w["x"] == "Fraction":
+                    return {"q": core.q(Fraction(w["r"]))}
+                val = to_py(w)
+                val = val.item() if hasattr(val, "item") else val
+                if isinstance(val, float) and not math.isfinite(val):
+                    return {"q": core.q(_PLACEHOLDER["nan" if math.isnan(val) else "inf" if val > 0 else "-inf"])}
+                return {"q": core.q(val)}
+            return {"x": w["x"] + ":" + w["r"]}
+    return w
+
+
+def _model_dict(d):
+    return {kk: to_model(v) for kk, v in d.items()} if isinstance(d, dict) else d
 
 
 def num(x):
@@ -127,15 +273,20 @@ def num(x):
 
 
 def W(x):
-    """wire value of a Python literal (ints stay ints, floats stay floats)"""
+    """wire value of a Python literal (ints stay ints, floats stay floats; wire dicts pass through)"""
     if x is None or isinstance(x, bool):
         return x
-    if isinstance(x, (int, float)):
+    if isinstance(x, dict) and ("x" in x or "q" in x or "s" in x):
+        return x
+    if type(x) in (int, float) and not (isinstance(x, float) and (math.isnan(x) or math.isinf(x))):
         return num(x)
     if isinstance(x, str):
         return {"s": x}
-    if isinstance(x, (list, tuple)):
+    if isinstance(x, list):
         return [W(y) for y in x]
+    e = _enc_exotic(x)
+    if e is not None:
+        return e
     raise ValueError(x)
 
 
@@ -181,6 +332,33 @@ def _fill(skel, ctr):
     return None
 
 
+# (F4) entries that look numeric but are not plain numbers, by class
+_NUMSTR = [{"s": t} for t in ["0.5", "2", "1e-3", "nan", "inf", "-1", " 3 ", "1_0", "12", "\u0663", "0x10", "1.0"]]
+_NONNUM = [X("bytes", "1"), X("bytes", "0.5"), X("bytearray", "2"), X("tuple", "1.0"), X("tuple", ""), X("tuple", "1.0,2.0"),
+           X("dict", ""), X("dict", "a"), X("np.array1", "1.0"), X("np.array1", "1.0,2.0"), X("np.array1", ""), X("np.array2", "1.0")]
+_SILENT = [X("Decimal", "0.5"), X("Decimal", "2"), X("complex", "(1+0j)"), X("complex", "2j"), X("np.bool_", "True"),
+           X("np.array0", "0.5"), X("Decimal", "NaN")]
+_REALS = [X("Fraction", "1/3"), X("Fraction", "2"), X("np.float64", "0.25"), X("np.float32", "0.5"), X("np.int64", "3"),
+          X("float", "inf"), X("float", "-inf"), X("float", "nan"), X("np.float64", "nan")]
+EXOTIC_CLASSES = [("numstr", _NUMSTR), ("nonnum", _NONNUM), ("silent", _SILENT), ("real", _REALS)]
+
+
+def _top_level_ok(w):
+    """may the wire value stand for a whole specification (not only for an entry)?"""
+    return not (isinstance(w, dict) and "x" in w) or _EXOTIC[w["x"]][3]
+
+
+def _fill_with(skel, path, w, ctr, at=()):
+    """like _fill, with the leaf at `path` replaced by the wire value `w`"""
+    if at == path:
+        if not isinstance(skel, tuple):
+            ctr[0] += 1
+        return w
+    if isinstance(skel, tuple):
+        return [_fill_with(sk, path, w, ctr, at + (i,)) for i, sk in enumerate(skel)]
+    return _fill(skel, ctr)
+
+
 def _numeric_shapes():
     """all-numeric skeletons of nesting <= 2 with list lengths <= 3 (157)"""
     elems = ["N"] + [tuple("N" for _ in range(k)) for k in range(4)]
@@ -206,9 +384,10 @@ def _replace(skel, path, new):
     return tuple(l)
 
 
-def thr_space(max_nodes):
+def thr_space(max_nodes, rng=None, tier="quick"):
     seen = set()
     cases = []
+    rot = [0, 1, 2, 3]
 
     def add(w, ns):
         key = json.dumps(w, sort_keys=True)
@@ -222,11 +401,47 @@ def thr_space(max_nodes):
     for size in range(1, max_nodes + 1):
         for sk in _trees(size, 3):
             add(_fill(sk, [0]), range(0, 5))
+    thr_space.n_f1 = len(cases)
     for sk in _numeric_shapes():
         add(_fill(sk, [0]), range(1, 5))
         for p in _leaf_paths(sk):
             for new in ("B", "S", "Z", ("N",), ()):
                 add(_fill(_replace(sk, p, new), [0]), range(1, 5))
+    # (F4) every leaf (and every row) of every all-numeric shape replaced by a value that looks numeric but is no
+    # plain number: thorough = every value of every class, quick = two values of every class in rotation
+    for sk in _numeric_shapes():
+        paths = list(_leaf_paths(sk))
+        if isinstance(sk, tuple):
+            paths += [(i,) for i, r in enumerate(sk) if isinstance(r, tuple)]  # a whole row
+        ns4 = list(range(1, 5))
+        if tier == "quick":  # quick: only the n for which the uncorrupted shape is well-formed in some mode (+ one other)
+            pv = to_py(_fill(sk, [0]))
+            ns4 = [n for n in ns4 if spec_flat(pv, n) is not None or spec_nested(pv, n) is not None]
+            ns4 = ns4[:3] if len(ns4) == 4 else ns4
+        for p in paths:
+            for ci, (_cls, vals) in enumerate(EXOTIC_CLASSES):
+                if tier == "quick":
+                    pick = [vals[(2 * rot[ci] + j) % len(vals)] for j in range(2)]
+                    rot[ci] += 1
+                else:
+                    pick = vals
+                for w in pick:
+                    if p == () and not _top_level_ok(w):
+                        continue
+                    add(_fill_with(sk, p, w, [0]), ns4)
+    if rng is not None:  # several such entries at once
+        shapes = [sk for sk in _numeric_shapes() if isinstance(sk, tuple) and sk]
+        allv = [w for _c, vals in EXOTIC_CLASSES for w in vals]
+        for _ in range(400 if tier == "quick" else 6000):
+            sk = rng.choice(shapes)
+            v = _fill(sk, [0])
+            for _k in range(rng.choice([2, 2, 3])):
+                i = rng.randrange(len(v))
+                if isinstance(v[i], list) and v[i] and rng.random() < 0.8:
+                    v[i][rng.randrange(len(v[i]))] = rng.choice(allv)
+                else:
+                    v[i] = rng.choice(allv)
+            add(v, [rng.randrange(1, 5)])
     # (F3) lengths relative to n: flat lists and up to 3 rows whose lengths are in {0, 1, n-1, n, n+1}
     for n in range(1, 5):
         lens = sorted({0, 1, n - 1, n, n + 1})
@@ -253,6 +468,7 @@ DOC_SUPPORT = {"pcfg": set(TASKS_3D + TASKS_2D), "scfg": {"sensing"}}
 IS_3D = {"detection", "tracking", "prediction", "sensing", "fp_validation"}
 DOC_METRIC_PARAMS = {"center_distance_thresholds", "plane_distance_thresholds", "iou_2d_thresholds", "iou_3d_thresholds"}
 RANGE_KEYS = ["max_x_position", "max_y_position", "max_distance", "min_distance"]
+THRESHOLD_KEYS = set(RANGE_KEYS) | DOC_METRIC_PARAMS | {"max_matchable_radii", "min_point_numbers", "confidence_threshold"}
 FILTER_SRC = {
     "max_x_position_list": "max_x_position", "max_y_position_list": "max_y_position",
     "max_distance_list": "max_distance", "min_distance_list": "min_distance",
@@ -288,6 +504,23 @@ def base_config(task, rng_kind="xy", prefix="autoware", nlab=4):
         ]
     d += [("confidence_threshold", W(0.25))]
     return d
+
+
+def exotic_pool(n, nested=True):
+    """lists whose shape is right for n labels but which hold an entry that only looks numeric (every class)"""
+    out = []
+    for i, (_cls, vals) in enumerate(EXOTIC_CLASSES):
+        for j, w in enumerate(vals):
+            row = [num(1.0 + t) for t in range(n)]
+            row[(i + j) % n] = w
+            out.append(row)                                   # flat, full length
+            if j % 3 == 0:
+                out.append([w])                               # singleton (broadcast)
+            if nested:
+                out.append([[num(1.0)] * n, row])             # second row of a nested list
+                if j % 3 == 1:
+                    out.append([[num(2.0)] * n, [w]])         # singleton row (broadcast)
+    return out
 
 
 def corrupt_pool(n):
@@ -395,13 +628,25 @@ def config_cases(rng, tier):
                 vals = pool
             for v in vals:
                 cases.append(pcfg_case(dset(d, k, v), fr))
+        # entries that only look numeric, at every key that holds a threshold specification
+        ex = exotic_pool(n)
+        for k in keys:
+            if k in THRESHOLD_KEYS:
+                flat_only = k not in DOC_METRIC_PARAMS
+                vals = [v for v in ex if not (flat_only and v and isinstance(v[0], list))]
+                if tier == "quick":
+                    start = rng.randrange(len(vals))
+                    vals = [vals[(start + 7 * j) % len(vals)] for j in range(8)]
+                for v in vals:
+                    cases.append(pcfg_case(dset(d, k, v), fr))
         for f in FRAME_POOL:
             cases.append(pcfg_case(d, f))
         # both range kinds / partial range kinds
-        for ks in itertools.product([0, 1], repeat=4):
+        # (0 = absent, 1 = a positive bound, 2 = a bound that is given but falsy: 0.0 / 0)
+        for ks in itertools.product([0, 1, 2], repeat=4):
             dd = d
-            for k, on in zip(RANGE_KEYS, ks):
-                dd = dset(ddel(dd, k), k, W(20.0)) if on else ddel(dd, k)
+            for j, (k, on) in enumerate(zip(RANGE_KEYS, ks)):
+                dd = dset(ddel(dd, k), k, W(20.0) if on == 1 else W(0.0) if j % 2 == 0 else W(0)) if on else ddel(dd, k)
             cases.append(pcfg_case(dd, fr))
     # sensing
     sb = sensing_base()
@@ -438,6 +683,8 @@ def config_cases(rng, tier):
             elif r < 0.9:
                 k = rng.choice(keys)
                 vals = TASK_POOL if k == "evaluation_task" else LABEL_POOL if k == "target_labels" else PREFIX_POOL if k == "label_prefix" else pool
+                if k in THRESHOLD_KEYS and rng.random() < 0.3:
+                    vals = exotic_pool(n, nested=k in DOC_METRIC_PARAMS)
                 d = dset(d, k, rng.choice(vals))
             else:
                 fr = rng.choice(FRAME_POOL)
@@ -491,6 +738,18 @@ def frame_cases(rng, tier):
                     for v in pool:
                         a = dset(b, k, v)
                         cases.append({"kind": "crit", "task": task, "prefix": prefix, "args": [["target_labels", labels]] + [[k2, v2] for k2, v2 in a]})
+            if n:
+                ex = exotic_pool(n, nested=False)
+                if tier == "quick":
+                    start = rng.randrange(len(ex))
+                    ex = [ex[(start + 5 * j) % len(ex)] for j in range(6 if full else 2)]
+                for j, v in enumerate(ex):
+                    b = bases[j % 2]
+                    kk = CRIT_KEYS[j % len(CRIT_KEYS)]
+                    cases.append({"kind": "crit", "task": task, "prefix": prefix,
+                                  "args": [["target_labels", labels]] + [[k2, v2] for k2, v2 in dset(b, kk, v)]})
+                    cases.append({"kind": "pf", "task": task, "prefix": prefix,
+                                  "args": [["target_labels", labels], [PF_KEYS[j % 2], v]]})
             for k in PF_KEYS:
                 for v in pool:
                     cases.append({"kind": "pf", "task": task, "prefix": prefix, "args": [["target_labels", labels], [k, v]]})
@@ -525,8 +784,25 @@ def corpus():
     return cs
 
 
+def _size(w):
+    return 1 + sum(_size(x) for x in w) if isinstance(w, list) else 1
+
+
+def check_cases(thr_cases, tier):
+    """the direct entry points: check_thresholds on every flat-mode specification, check_nested_thresholds on every
+    nested-mode one (depth <= 3), for the same n"""
+    out = []
+    for i, c in enumerate(thr_cases):
+        if i < thr_space.n_f1 and _size(c["v"]) > (4 if tier == "quick" else 5):
+            continue  # the tree enumeration (F1) only up to 4 (quick) / 5 (thorough) nodes
+        if c["n"] >= 1 and _depth(c["v"]) <= 3:
+            out.append({"kind": "chkn" if c["nest"] else "chk", "v": c["v"], "n": c["n"]})
+    return out
+
+
 def generate(rng, tier):
-    cases = thr_space(5 if tier == "quick" else 7)
+    cases = thr_space(5 if tier == "quick" else 7, rng, tier)
+    cases += check_cases(cases, tier)
     cases += config_cases(rng, tier)
     cases += frame_cases(rng, tier)
     return cases
@@ -583,6 +859,16 @@ def run_impl(case):
             return {"err": type(e).__name__}
         return {"ok": from_py(r), "again": _norm_twice(lambda x: set_thresholds(x, n, nest), r),
                 "input_after": from_py(v)}
+    if k in ("chk", "chkn"):
+        from perception_eval.common import threshold as _thr
+
+        fn = _thr.check_thresholds if k == "chk" else _thr.check_nested_thresholds
+        v = to_py(case["v"])
+        try:
+            r = fn(v, case["n"])
+        except Exception as e:
+            return {"err": type(e).__name__}
+        return {"ok": from_py(r), "same_object": r is v, "input_after": from_py(v)}
     if k in ("pcfg", "scfg"):
         from perception_eval.config import PerceptionEvaluationConfig, SensingEvaluationConfig
 
@@ -645,16 +931,18 @@ def _n_all(prefix):
 def model_requests(case, out):
     k = case["kind"]
     if k == "thr":
-        return [{"op": "set_thresholds", "v": strip(case["v"]), "n": case["n"], "nest": case["nest"]}]
+        return [{"op": "set_thresholds", "v": to_model(case["v"]), "n": case["n"], "nest": case["nest"]}]
+    if k in ("chk", "chkn"):
+        return [{"op": "check_thresholds" if k == "chk" else "check_nested_thresholds", "v": to_model(case["v"]), "n": case["n"]}]
     if k in ("pcfg", "scfg"):
         fr = case["frames"]
         return [{"op": "perception_config" if k == "pcfg" else "sensing_config",
-                 "d": [[kk, strip(v)] for kk, v in case["d"]], "frames": [fr] if isinstance(fr, str) else list(fr)}]
+                 "d": [[kk, to_model(v)] for kk, v in case["d"]], "frames": [fr] if isinstance(fr, str) else list(fr)}]
     if k == "crit":
-        return [{"op": "critical_config", "args": [[kk, strip(v)] for kk, v in case["args"]],
+        return [{"op": "critical_config", "args": [[kk, to_model(v)] for kk, v in case["args"]],
                  "is2d": case["task"] not in IS_3D, "nAll": _n_all(case["prefix"])}]
     if k == "pf":
-        return [{"op": "passfail_config", "args": [[kk, strip(v)] for kk, v in case["args"]], "nAll": _n_all(case["prefix"])}]
+        return [{"op": "passfail_config", "args": [[kk, to_model(v)] for kk, v in case["args"]], "nAll": _n_all(case["prefix"])}]
     return []
 
 
@@ -663,8 +951,8 @@ def compare(case, out, resps):
     k = case["kind"]
     if "err" in out or "err" in r:
         return None if out.get("err") == r.get("err") else f"impl {_short(out)} != model {_short(r)}"
-    if k == "thr":
-        return None if out["ok"] == r["ok"] else f"impl {_short(out['ok'])} != model {_short(r['ok'])}"
+    if k in ("thr", "chk", "chkn"):
+        return None if to_model(out["ok"]) == r["ok"] else f"impl {_short(out['ok'])} != model {_short(r['ok'])}"
     a, b = out["ok"], r["ok"]
     if a["n"] != b["n"]:
         return f"number of target labels: impl {a['n']} != model {b['n']}"
@@ -672,13 +960,13 @@ def compare(case, out, resps):
     if k in ("pcfg", "scfg"):
         if a["task"] != b["task"]:
             return f"task: impl {a['task']} != model {b['task']}"
-        if a["filtering"] != mf:
+        if _model_dict(a["filtering"]) != mf:
             return f"filtering_params: impl {_short(a['filtering'])} != model {_short(mf)}"
         mm = None if b["metrics"] is None else dict((kk, v) for kk, v in b["metrics"])
-        if a["metrics"] != mm:
+        if _model_dict(a["metrics"]) != mm:
             return f"metrics lists: impl {_short(a['metrics'])} != model {_short(mm)}"
         return None
-    if a["filtering"] != mf:
+    if _model_dict(a["filtering"]) != mf:
         return f"lists: impl {_short(a['filtering'])} != model {_short(mf)}"
     return None
 
@@ -691,12 +979,31 @@ def _short(x):
 # --------------------------------------------------------------------------- the oracle (independent of the model)
 
 
+def _leaf_class(x):
+    """how the property text reads one entry, decided by its TYPE only (never by what float() would make of it):
+    "num" = a plain finite int / float; "silent" = a numeric object about which the text is silent (bool, Fraction,
+    numpy scalars, inf / nan, Decimal, complex, 0-dimensional arrays): neither acceptance nor rejection is demanded,
+    only that it is not altered when accepted; "non" = not a number (str whatever its content, bytes, bytearray,
+    None, tuple, dict, arrays, lists): must be rejected"""
+    if type(x) in (int, float):
+        return "num" if (isinstance(x, int) or math.isfinite(x)) else "silent"
+    if x is None or isinstance(x, (str, bytes, bytearray, list, tuple, dict)):
+        return "non"
+    e = _enc_exotic(x) if not isinstance(x, bool) else None
+    if isinstance(x, bool) or (e is not None and _EXOTIC[e["x"]][1] in ("silent", "real")):
+        return "silent"
+    return "non"
+
+
 def _is_num(x):
-    return isinstance(x, (int, float))  # bool is an int: a number in Python's sense (numbers.Real)
+    return _leaf_class(x) != "non"
 
 
 def _has_bool(v):
-    return isinstance(v, bool) or (isinstance(v, list) and any(_has_bool(x) for x in v))
+    """holds an entry on which the property text is silent (bool and the other "silent" kinds)"""
+    if isinstance(v, list):
+        return any(_has_bool(x) for x in v)
+    return _leaf_class(v) == "silent"
 
 
 def spec_flat(v, n):
@@ -726,7 +1033,7 @@ def spec_nested(v, n):
 
 
 def _why_malformed(v, nest):
-    if v is None or isinstance(v, str):
+    if not isinstance(v, list):
         return "not a number or list"
     if isinstance(v, list):
         if not v:
@@ -788,6 +1095,23 @@ def _complaints(case, out):
             cs.append(("idempotence", f"normalising the accepted result {_short(out['ok'])} again gives {_short(out.get('again'))}"))
         if out.get("input_after") != strip(case["v"]):
             cs.append(("input-mutated", f"the specification was modified in place: {_short(out.get('input_after'))}"))
+        return cs
+    if k in ("chk", "chkn"):
+        v, n = to_py(case["v"]), case["n"]
+        nest = k == "chkn"
+        what = "check_nested_thresholds" if nest else "check_thresholds"
+        normal = isinstance(v, list) and (all(_shape_ok(r, n, False) for r in v) if nest else _shape_ok(v, n, False))
+        if "err" in out:
+            if normal and not _has_bool(v) and not (nest and not v):
+                cs.append(("wellformed-rejected", f"{what}: normal form {_short(case['v'])} (n={n}) rejected with {out['err']}"))
+            return cs
+        if not isinstance(v, list):
+            return cs  # not a list at all ("" has nothing to check): outside the documented domain
+        if not normal:
+            why = _why_malformed(v, nest)
+            cs.append(("malformed-accepted", f"{what}(n={n}): {_short(case['v'])} is not a normal form ({why}) but was accepted as {_short(out['ok'])}"))
+        if out["ok"] != strip(case["v"]) or out.get("input_after") != strip(case["v"]):
+            cs.append(("altered", f"{what}(n={n}): {_short(case['v'])} returned as {_short(out['ok'])}, input afterwards {_short(out.get('input_after'))}"))
         return cs
     if "err" in out:
         return cs  # "accepted only if": a rejection never violates the property
@@ -887,6 +1211,24 @@ def _depth(w):
     return 0
 
 
+def _exotics(w):
+    """the kinds of exotic entries of a wire value ("numstr" = a str that float() would parse)"""
+    out = set()
+    if isinstance(w, list):
+        for x in w:
+            out |= _exotics(x)
+    elif isinstance(w, dict):
+        if "x" in w:
+            out.add("entry=" + w["x"] + (":" + w["r"] if w["x"] == "float" else ""))
+        elif "s" in w:
+            try:
+                float(w["s"])
+                out.add("entry=numstr")
+            except ValueError:
+                pass
+    return out
+
+
 def branches(case, out):
     k = case["kind"]
     res = "err:" + out["err"] if "err" in out else "ok"
@@ -909,13 +1251,20 @@ def branches(case, out):
             detail = f"thr:nest={int(nest)}:accept:{path}"
         else:
             detail = f"thr:nest={int(nest)}:reject:{_why_malformed(pv, nest) if case['n'] else 'n=0'}"
-        return [f"thr:nest={int(nest)}:{res}", f"thr:n={case['n']}", f"thr:depth={_depth(v)}:{res}", f"thr:{top}:{res}", detail]
+        return [f"thr:nest={int(nest)}:{res}", f"thr:n={case['n']}", f"thr:depth={_depth(v)}:{res}", f"thr:{top}:{res}", detail] + [
+            f"thr:{e}:{res}" for e in _exotics(v)]
+    if k in ("chk", "chkn"):
+        return [f"{k}:{res}", f"{k}:n={case['n']}", f"{k}:depth={_depth(case['v'])}:{res}"] + [f"{k}:{e}:{res}" for e in _exotics(case["v"])]
     if k in ("pcfg", "scfg"):
         if case.get("base"):
             return ["trivial", f"{k}:base:{res}"]
         t = dget([tuple(p) for p in case["d"]], "evaluation_task")
         t = t.get("s") if isinstance(t, dict) else "non-str"
         b = [f"{k}:{res}", f"{k}:task={t}:{'ok' if res == 'ok' else 'err'}"]
+        ex = set()
+        for _kk, v in case["d"]:
+            ex |= _exotics(v)
+        b += [f"{k}:{e}:{'ok' if res == 'ok' else 'err'}" for e in ex]
         if res == "ok" and k == "pcfg":
             b.append("pcfg:metrics=" + ("none" if out["ok"]["metrics"] is None else "lists"))
             b.append("pcfg:range=" + ("xy" if out["ok"]["filtering"].get("max_x_position_list") is not None else
@@ -923,12 +1272,16 @@ def branches(case, out):
             if any(kk.endswith("_thresholds") and kk not in DOC_METRIC_PARAMS for kk, _ in case["d"]):
                 b.append("pcfg:F8-unknown-key-accepted")
         return b
-    return [f"{k}:{res}", f"{k}:{'2d' if case['task'] not in IS_3D else '3d'}:{'ok' if res == 'ok' else 'err'}"]
+    ex = set()
+    for _kk, v in case["args"]:
+        ex |= _exotics(v)
+    return [f"{k}:{res}", f"{k}:{'2d' if case['task'] not in IS_3D else '3d'}:{'ok' if res == 'ok' else 'err'}"] + [
+        f"{k}:{e}:{res}" for e in ex]
 
 
 def shrink(case):
     k = case["kind"]
-    if k == "thr":
+    if k in ("thr", "chk", "chkn"):
         v = case["v"]
         if isinstance(v, list):
             for i in range(len(v)):
